@@ -29,9 +29,12 @@ type DDLCase struct {
 	Cols     []DDLCol `json:"cols"`
 	TrailPK  int      `json:"trail_pk"` // -1 none; else index of the column named by a trailing PRIMARY KEY(...)
 	TrailQ   string   `json:"trail_q,omitempty"`
-	Upper    bool     `json:"upper,omitempty"` // keywords in upper case
-	Sep      string   `json:"sep,omitempty"`   // whitespace between tokens
-	Opts     []string `json:"opts"`            // extra options, rendered as given
+	Upper    bool     `json:"upper,omitempty"`     // keywords in upper case
+	Sep      string   `json:"sep,omitempty"`       // whitespace between tokens
+	PreComma string   `json:"pre_comma,omitempty"` // whitespace before each comma
+	Lead     string   `json:"lead,omitempty"`      // whitespace before the first column
+	Trail    string   `json:"trail,omitempty"`     // whitespace after the last item
+	Opts     []string `json:"opts"`                // extra options, rendered as given
 	OptOrder []int    `json:"opt_order,omitempty"`
 	Mutation string   `json:"mutation,omitempty"` // "" = valid
 	MutArg   int      `json:"mut_arg,omitempty"`
@@ -100,11 +103,15 @@ func (c DDLCase) columnsText() string {
 		}
 		items = append(items, kw("primary")+sep+kw("key")+"("+name+")")
 	}
-	return strings.Join(items, ","+sep)
+	// layout: optional white space before each comma, and before / after the whole list
+	return c.Lead + strings.Join(items, c.PreComma+","+sep) + c.Trail
 }
 
 func genDDLCase(t *rapid.T) DDLCase {
 	c := DDLCase{TrailPK: -1, Upper: rapid.Bool().Draw(t, "upper"), Sep: rapid.SampledFrom([]string{" ", " ", "  ", "\t", "\n ", " \n"}).Draw(t, "sep")}
+	c.PreComma = rapid.SampledFrom([]string{"", "", " ", "\t", "\n", "  "}).Draw(t, "precomma")
+	c.Lead = rapid.SampledFrom([]string{"", "", " ", "\n  "}).Draw(t, "lead")
+	c.Trail = rapid.SampledFrom([]string{"", "", " ", "\n", "\t "}).Draw(t, "trail")
 	n := rapid.IntRange(1, 5).Draw(t, "ncols")
 	used := map[string]bool{}
 	for len(c.Cols) < n {
@@ -482,7 +489,7 @@ func runDDL(c DDLCase, o *Obs) error {
 func init() { register("TestC20_DDL", runDDL) }
 
 func TestC20_DDL(t *testing.T) {
-	st := newStats(t, "C20", "TestC20_DDL", "argument lists from a grammar of the documented surface: columns='<name> [text|varchar|integer|number|real] [primary key] [not null], ...' or a trailing primary key(<name>), names plain / single-quoted / double-quoted (spaces, keywords, non-ASCII, embedded quote), keyword case and whitespace varied, options entries_per_node / node_cache_entries / readonly / s3_prefix (quoted or not) in any order; half of the cases carry one mutation: unknown / duplicated option, option without value, non-numeric N, missing or empty columns, composite key, two keys, key naming no column, UNIQUE, DEFAULT, duplicate column (exact and case-insensitive), unbalanced quote, more text after the closing quote of a quoted value, s3_endpoint without s3_bucket, or a valid list whose open is refused by the bucket (every request fails). Accept: pragma table_info (name, notnull, pk) equals a native table declared from the same specification with proper quoting, rows come back under those names, NULL key refused. Reject: error, table not registered, no PUT/DELETE, and the corrected definition of the same name then succeeds; non-trivial = a name that needs quoting, or any rejected list")
+	st := newStats(t, "C20", "TestC20_DDL", "argument lists from a grammar of the documented surface: columns='<name> [text|varchar|integer|number|real] [primary key] [not null], ...' or a trailing primary key(<name>), names plain / single-quoted / double-quoted (spaces, keywords, non-ASCII, embedded quote), keyword case and white space varied (between tokens, before commas, before and after the list), options entries_per_node / node_cache_entries / readonly / s3_prefix (quoted or not) in any order; half of the cases carry one mutation: unknown / duplicated option, option without value, non-numeric N, missing or empty columns, composite key, two keys, key naming no column, UNIQUE, DEFAULT, duplicate column (exact and case-insensitive), unbalanced quote, more text after the closing quote of a quoted value, s3_endpoint without s3_bucket, or a valid list whose open is refused by the bucket (every request fails). Accept: pragma table_info (name, notnull, pk) equals a native table declared from the same specification with proper quoting, rows come back under those names, NULL key refused. Reject: error, table not registered, no PUT/DELETE, and the corrected definition of the same name then succeeds; non-trivial = a name that needs quoting, or any rejected list")
 	checkRapid(t, st, genDDLCase, runDDL)
 }
 
